@@ -321,6 +321,12 @@ def step_binary(hist, conf):
             if d:
                 viol.append(("C03:binary:reader:%s:%s" % (sig_kinds, d[2]), case, {"where": d[0], "diff": d[2]}))
                 out += "/reader-diff"
+            else:
+                # a grouped record also has a flat descriptor (name + ordered field list): it must come back as it was created
+                wf, rf = written[w][-1]._desc, items[-1]._desc
+                if (wf.name, [list(t) for t in wf.get_field_tuples()]) != (rf.name, [list(t) for t in rf.get_field_tuples()]):
+                    viol.append(("C03:binary:reader:%s:flat-descriptor-differs" % sig_kinds, case,
+                                 {"created_with": [list(t) for t in wf.get_field_tuples()], "read_back": [list(t) for t in rf.get_field_tuples()]}))
         # (3) independence
         for o in range(m):
             if o != w and before is not None and datas[o] != before[o]:
